@@ -451,6 +451,9 @@ def generic_in_process(desc):
         return "violation", f"raised {type(ex).__name__}: {ex}"
     if "raises" in exp:
         return "violation", "returned normally"
+    if "members" in exp:
+        ok = [list(x) for x in res] == exp["members"]
+        return ("ok", "match") if ok else ("violation", f"members {res} expected {exp['members']}")
     if exp.get("assembly"):
         got, want, size_ok = res
         ok = size_ok and got[: len(want)] == want and len(got) >= len(want)
